@@ -130,6 +130,8 @@ def normalise_discovery(events):
             yield {"ev": "DeleteParticipant", "t": t, "net": e.get("net", -1)}
         elif ev == "Ignore":
             yield {"ev": "Ignore", "t": t, "net": e["net"], "target": e["target_net"]}
+        elif ev == "MetaFaults":
+            yield {"ev": "MetaFaults", "t": t, "on": 1 if float(e.get("loss") or 0) > 0 else 0}
         elif ev == "Send":
             has = any(s["k"] in ("DATA", "DATAFRAG") for s in e["subs"])
             hb = any(s["k"] in ("DATA", "DATAFRAG", "HB") for s in e["subs"])
